@@ -123,18 +123,18 @@ def r1_r5(db, rep, cache, trans):
     r4b = rep.rule("R4b", "K4", "reaching-definitions transfer: Edge and EmptyBlock locations leave the state unchanged (an edge "
                    "evaluates a guard, it assigns no scalar: dropping or adding definitions there changes what reaches the "
                    "successor block)")
-    found = False
-    for m in walk(hb["body"]):
-        if m.get("k") != "Match" or m.get("src") != "Normal":
-            continue
-        from db import pat_leaves, pat_path
-        for a in m["arms"]:
-            names = {last_seg(pat_path(p) or "") for p in pat_leaves(a["pat"])}
-            if names and names <= {"Edge", "EmptyBlock"}:
-                found = True
-                effects = [x for x in walk(a["body"]) if x.get("k") in ("MethodCall", "Call", "Assign", "AssignOp")]
-                r4b.decide(not effects, "trans|%s|identity" % "+".join(sorted(names)), db.where(hb, a.get("l", m["l"])),
-                           "the %s arm of the transfer function changes the state" % "/".join(sorted(names)))
+    # on MIR: from the switch on the location kind, the sides taken for Edge / EmptyBlock reach the return without any call
+    # that touches the state (whether the function is a match with an empty arm, an if-let or a let-else with early return)
+    ks = kind_switch(db, trans)
+    found = ks is not None
+    if found:
+        tcfg, tb, t, ins_bb, others, _gens = ks
+        for ob, names in sorted(others.items()):
+            region = tcfg.reachable(ob, avoid=[ins_bb]) if ob != ins_bb else set(range(len(tb["blocks"])))
+            # nothing at all is called on these sides (the state is handed back as it came)
+            effects = [mir_callee(t2) or "?" for i2, t2 in mir_calls(tb) if i2 in region]
+            r4b.decide(not effects, "trans|%s|identity" % "+".join(sorted(names)), db.where(tb, t.get("l")),
+                       "for %s locations the transfer function changes the state (%s)" % ("/".join(sorted(names)), [last_seg(e) for e in effects][:3]))
     rep.anchor(found, "Edge / EmptyBlock arm of the reaching-definitions transfer function")
 
 
@@ -187,6 +187,59 @@ def immediate_trans(trans):
     return trans
 
 
+def kind_switch(db, trans):
+    """The transfer function's decision on the kind of location, on MIR: (cfg, body, instruction-side block, {other-side
+    block: [variant names]}, gen-call blocks on the instruction side), or None.  The gen calls are the calls of the body that
+    insert into the state, directly or inside a closure they are handed."""
+    from armlib import variants_of
+    tb = db.mir[trans]
+    ttm = terms_of(db, trans, {})
+    tcfg = Cfg(tb)
+    vs = [last_seg(v) for v, _ in (variants_of(db, "il::location::RefFunctionLocation") or [])]
+    if "Instruction" not in vs:
+        return None
+    inserting = set()
+    for d in bodies_under(db, trans):
+        if d != trans and any(last_seg(mir_callee(t) or "") in ("insert", "remove") and "LocationSet" in (mir_callee(t) or "")
+                              for i, t in mir_calls(db.mir[d])):
+            inserting.add(d)
+    # closures nest: a closure that creates an inserting closure inserts too
+    changed = True
+    while changed:
+        changed = False
+        for d in bodies_under(db, trans):
+            if d in inserting or d == trans:
+                continue
+            if any(x in str(db.mir[d]["blocks"]) for x in inserting):
+                inserting.add(d)
+                changed = True
+    for j, bb in enumerate(tb["blocks"]):
+        t = bb["t"]
+        if t["k"] != "SwitchInt":
+            continue
+        d = ttm.operand(t["discr"])
+        if d[0] != "discr" or not any(last_seg(c[1]) == "function_location" for c in calls_in(d)):
+            continue
+        tg = dict((v_, b_) for v_, b_ in t["targets"])
+        ins_bb = tg.get(vs.index("Instruction"), t.get("otherwise"))
+        others = {}
+        for nm in vs:
+            if nm != "Instruction":
+                others.setdefault(tg.get(vs.index(nm), t.get("otherwise")), []).append(nm)
+        gens = []
+        for i2, t2 in mir_calls(tb):
+            if i2 not in tcfg.reachable(ins_bb, avoid=[o for o in others if o != ins_bb]):
+                continue
+            c2 = mir_callee(t2) or ""
+            direct = last_seg(c2) in ("insert", "remove") and "LocationSet" in c2
+            via = any(isinstance(x, tuple) and x and x[0] == "closure" and x[1] in inserting
+                      for a_ in t2["args"] for x in subterms(ttm.operand(a_)))
+            if direct or via:
+                gens.append(i2)
+        return tcfg, tb, t, ins_bb, others, gens
+    return None
+
+
 def r7(db, rep, trans):
     r = rep.rule("R7", "K12", "the chain builders and the transfer function take no decision on the identity of "
                  "locations or on the incoming state: the only equalities are on scalars, and the transfer function "
@@ -205,9 +258,13 @@ def r7(db, rep, trans):
                     bad.append((db.where(body, t["l"]), fg))
         r.decide(not bad, "%s|only_scalar_equalities" % root, bad[0][0] if bad else db.where(db.mir[root]),
                  "decision on location identity / incoming state: %s" % (bad[0][1] if bad else ""))
-    hb = db.hir[trans]
-    rets = [n for n in walk(hb["body"]) if n.get("k") == "Ret"]
-    r.decide(not rets, "trans|no_early_return", db.where(hb, rets[0]["l"]) if rets else db.where(hb),
+    ks = kind_switch(db, trans)
+    rep.anchor(ks is not None, "the transfer function's switch on the kind of location")
+    tcfg, tb, sw_t, ins_bb, others, gens = ks
+    # for an instruction, no path reaches the return without the kill/gen step (returning the state unchanged for edges and
+    # empty blocks is not an early return in this sense)
+    leak = [x for x in tcfg.reachable(ins_bb, avoid=gens) if tb["blocks"][x]["t"]["k"] == "Return"] if ins_bb not in others else [ins_bb]
+    r.decide(bool(gens) and not leak, "trans|no_early_return", db.where(tb, sw_t.get("l")),
              "the transfer function returns early on some incoming states")
 
 
@@ -343,17 +400,15 @@ def r4(db, rep, cache, trans, join):
     if order_ok is not None:
         r.decide(order_ok, "trans|order", db.where(db.mir[trans]), "kill must precede gen")
     # only Instruction arm generates
-    hb = db.hir[trans]
-    m = main_match(hb, RFL)
-    rep.anchor(m is not None, "match over RefFunctionLocation in trans")
-    for a in arm_table(m):
-        gens = any(last_seg(c) in ("insert", "remove") for c in a.callees())
-        for v in a.variants:
-            v = last_seg(v)
-            if v == "Instruction":
-                r.decide(gens, "trans|arm|" + v, db.where(hb, a.line), "Instruction arm must kill/gen")
-            else:
-                r.decide(not gens, "trans|arm|" + v, db.where(hb, a.line), "%s locations define nothing" % v)
+    ks = kind_switch(db, trans)
+    rep.anchor(ks is not None, "the transfer function's switch on the kind of location")
+    tcfg, tb, sw_t, ins_bb, others, gens = ks
+    r.decide(bool(gens), "trans|arm|Instruction", db.where(tb, sw_t.get("l")), "Instruction arm must kill/gen")
+    for ob, names in sorted(others.items()):
+        region = tcfg.reachable(ob, avoid=[ins_bb]) if ob != ins_bb else set(range(len(tb["blocks"])))
+        touched = [i2 for i2, t2 in mir_calls(tb) if i2 in region]
+        for v in names:
+            r.decide(not touched, "trans|arm|" + v, db.where(tb, sw_t.get("l")), "%s locations define nothing" % v)
     # --- join
     jb = db.mir[join]
     rep.analysed(join)
